@@ -8,7 +8,7 @@ RULE_RW = ('; plus real-components worlds of MibDump.tla (on-disk state of two m
            'spellings, second source directory, destination and borrower directories x options) compiled by the real MibCompiler with '
            'real reader / parser / generators / searchers / borrower / writer behind recording proxies')
 # quick tier: the real-components slices that exercise the property's own phases (thorough: all of them)
-RW_QUICK = {'C07': ['rw-status', 'rw-dest'], 'C08': ['rw-graph', 'rw-sources'], 'C09': ['rw-status'], 'C10': ['rw-status', 'rw-sources'], 'C19': ['rw-sources']}
+RW_QUICK = {'C07': ['rw-sources', 'rw-dest'], 'C08': ['rw-graph', 'rw-sources'], 'C09': ['rw-status'], 'C10': ['rw-status', 'rw-sources'], 'C19': ['rw-sources']}
 
 
 def _split(kw):
